@@ -31,7 +31,17 @@ fn run_case(c: &Case, st: &mut Stats, want: bool) -> CaseOut {
     let dn = (c.dw * c.dh) as usize;
     let spix = canary(&mut rng, sn);
     let dpix = canary(&mut rng, dn);
-    let src = DrawTarget::from_vec(c.sw, c.sh, spix.clone());
+    let mut src = DrawTarget::from_vec(c.sw, c.sh, spix.clone());
+    // the source's own transform, clip and open layers are none of the copy's business either: what is
+    // copied is the source's pixels (what its get_data shows)
+    if c.seed % 7 == 3 {
+        src.set_transform(&Transform::translation(1., 1.));
+        src.push_clip_rect(IntRect::new(IntPoint::new(1, 0), IntPoint::new(c.sw.max(2), c.sh.max(1))));
+        src.push_layer(0.5);
+        src.fill_rect(0., 0., c.sw as f32, c.sh as f32, &Source::Solid(solid(0x80102030)), &opts(BlendMode::SrcOver, 1., true));
+        st.add("sources_with_an_open_layer", 1);
+    }
+    let spix: Vec<u32> = src.get_data().to_vec();
     let mut dst = DrawTarget::from_vec(c.dw, c.dh, dpix.clone());
     if c.decorated {
         dst.set_transform(&Transform::translation(3., 2.).then_scale(2., 0.5));
@@ -229,7 +239,7 @@ pub fn run(ctx: &Ctx) -> Outcome {
             dst,
             entry: rng.below(3) as u8,
             mode: rng.below(28) as usize,
-            alpha: *rng.pick(&[0.0f32, 1.0, 0.5, 0.3, 2.0, -1.0, f32::NAN, 1.0 / 255.]),
+            alpha: *rng.pick(&[0.0f32, 1.0, 0.5, 0.3, 2.0, -1.0, f32::NAN, 1.0 / 255., 254. / 255., 255. / 256., 1.5, f32::INFINITY, 128. / 255.]),
             decorated: rng.chance(0.2),
             seed: rng.next_u64(),
         };
